@@ -76,9 +76,9 @@ def stub_signal():
 
 
 # ---------------------------------------------------------------------------- A: round trip
-NAMES = ['a', 'b c', 'ü', '$x', '-n', 'a\nb', '..x', '\'q"', 'x' * 120]
-KINDS = [('f', b'', 0o644), ('f', b'a', 0o755), ('f', b'B' * 70000, 0o600), ('f', b'a', 0o444), ('d', None, 0o755), ('d', None, 0o700),
-         ('dc', None, 0o755), ('lr', 'a', None), ('la', '/etc/passwd', None), ('ld', 'nonexistent/../x', None), ('h', None, None)]
+NAMES = ['a', 'b c', 'ü', '$x', '-n', 'a\nb', '..x', '\'q"', 'x' * 120, 'content']
+KINDS = [('f', b'', 0o644), ('f', b'a', 0o755), ('f', b'B' * 70000, 0o600), ('f', b'a', 0o444), ('d', None, 0o755), ('d', None, 0o700), ('d', None, 0o555), ('d', None, 0o1333),
+         ('dc', None, 0o755), ('lr', 'a', None), ('lr', 'content/a', None), ('la', '/etc/passwd', None), ('ld', 'nonexistent/../x', None), ('h', None, None)]
 
 
 def build_tree(root, entries):
